@@ -255,18 +255,12 @@ class C19(PropCheck):
         for _ in range(nw):
             yield self.gen_post('weight')
 
-    def gen_line(self, build):
+    def gen_profile(self, shape, eps, off_grid):
         r = self.rng
-        shape = r.choice(['step', 'step', 'bumps', 'bumps', 'below', 'above0', 'tie'])
-        if build and shape == 'above0':      # the profile is mirrored around x_min: keep offsets non-negative
-            shape = 'step'
-        eps = Fr(r.randint(1, 16), 4)
         lo_v = lambda: eps - Fr(r.randint(1, 8), 8)
         hi_v = lambda: eps + Fr(r.randint(0, 8), 8)
-        off_grid = Fr(1, 2 ** 20) if build else 0
         bps = sorted({Fr(r.randint(1, 400), r.choice([1, 2, 4, 8, 16, 64, 256])) for _ in range(r.randint(1, 5))})
         bps = [b + off_grid for b in bps]
-        tbl = []
         if shape == 'step':
             tbl = [(bps[0], lo_v())]
             dflt = hi_v()
@@ -282,6 +276,16 @@ class C19(PropCheck):
         else:
             tbl = [(bps[0], lo_v()), (bps[0] + Fr(3, 2), eps)]
             dflt = r.choice([lo_v(), hi_v()])
+        return tbl, dflt
+
+    def gen_line(self, build):
+        r = self.rng
+        shape = r.choice(['step', 'step', 'bumps', 'bumps', 'below', 'above0', 'tie'])
+        if build and shape == 'above0':      # keep the two sides' profiles consistent at offset 0
+            shape = 'step'
+        eps = Fr(r.randint(1, 16), 4)
+        off_grid = Fr(1, 2 ** 20) if build else 0
+        tbl, dflt = self.gen_profile(shape, eps, off_grid)
         K = r.choice([0, 1, 2, 3, 5, 8, 10, 12])
         eta = Fr(r.choice([1, 1, 1, 2, 3, Fr(1, 2), Fr(1, 4), Fr(3, 2), Fr(3, 4), 5]))
         rep_lim = r.choice([0, 0, 1, 1, 2, 3, 5, 10, 40, 300])
@@ -293,6 +297,12 @@ class C19(PropCheck):
         case = dict(kind_case='build' if build else 'line', tbl=[[sfr(b), sfr(v)] for b, v in tbl], dflt=sfr(dflt), eps=sfr(eps),
                     K=K, eta=sfr(eta), rep_lim=rep_lim, th_star=[sfr(x) for x in th_star])
         if build:
+            # a different profile on the negative side (same value at offset 0)
+            tn, dn = self.gen_profile(r.choice(['step', 'bumps', 'below', 'tie']), eps, off_grid)
+            tn[0] = (tn[0][0], tbl[0][1])
+            case['tbl_neg'] = [[sfr(b), sfr(v)] for b, v in tn]
+            case['dflt_neg'] = sfr(dn)
+            case['side'] = r.choice([0, 1])
             case['rep_lim'] = min(rep_lim, 40)
             case['d'] = r.randrange(D)
             case['hdiag'] = [r.choice([1.0, 2.0, 0.5, 3.0]) for _ in range(D)]
@@ -453,9 +463,9 @@ class C19(PropCheck):
                     out['same_draw'] = True
         return out
 
-    def scripted(self, case):
-        tbl = [(ufr(b), ufr(v)) for b, v in case['tbl']]
-        dflt = ufr(case['dflt'])
+    def scripted(self, case, neg=False):
+        tbl = [(ufr(b), ufr(v)) for b, v in case['tbl_neg' if neg else 'tbl']]
+        dflt = ufr(case['dflt_neg' if neg else 'dflt'])
 
         def g(t):
             for b, v in tbl:
@@ -486,6 +496,7 @@ class C19(PropCheck):
         returns one line-search observation per (dimension, side) whose search direction is +-e_d, d = case['d']"""
         from elfi.methods.inference import romc
         g = self.scripted(case)
+        gneg = self.scripted(case, neg=True)
         x0 = [ufr(x) for x in case['th_star']]
         D = len(x0)
         d = case['d']
@@ -494,10 +505,10 @@ class C19(PropCheck):
         searches = []
 
         def func(th):
-            # objective: the scripted profile along coordinate d (as a function of |th_d - x0_d|), others constant
-            t = abs(Fr(float(th[d])) - x0[d])
+            # objective: one scripted profile on each side of x_min along coordinate d, others constant
+            t = Fr(float(th[d])) - x0[d]
             moved = [i for i in range(D) if Fr(float(th[i])) != x0[i]]
-            v = max(g(t), others) if (not moved or moved == [d]) else others
+            v = max(g(t) if t >= 0 else gneg(-t), others) if (not moved or moved == [d]) else others
             if state['cur'] is not None:
                 state['cur']['probes'].append([[sfr(Fr(float(th[i])) - x0[i]) for i in range(D)], sfr(v)])
             return float(v)
@@ -615,6 +626,10 @@ class C19(PropCheck):
         prng = random.Random(case['pseed'])
         for i, rg in enumerate(regions):
             pts = [pf for _, pf in self.choose_points(case['regions'][i], rg, n2, prng)]
+            if prng.random() < 0.5:     # a point whose distance equals the cut-off exactly (tests the strict <)
+                a = [ufr(x) for x in case['anchors'][i]]
+                a[0] = a[0] + ufr(case['eps']) / case['scales'][i]
+                pts[0] = [float(x) for x in a]
             th = np.array(pts, dtype=float)
             w, dist = post._worker_compute_weight((i, th, rg, prior, funcs[i], eps, n2))
             obs = []
@@ -625,9 +640,27 @@ class C19(PropCheck):
         return dict(shape_ok=True, per=per)
 
     # ---------------------------------------------------------------- python-side clauses
+    def nonfinite(self, case, out):
+        """non-finite numbers among the implementation's outputs (no Coq term can be written for them)"""
+        k = case['kind_case']
+        vals = []
+        if k == 'box' and out.get('ok'):
+            vals = [out['vol']] + [x for r in out['lims'] for x in r] + [p['pdf'] for p in out['pts']] + \
+                   [s_['pdf'] for s_ in out['smps']] + [x for s_ in out['smps'] for x in s_['p']]
+        elif k == 'post':
+            vals = [out['val']]
+        elif k == 'weight':
+            vals = [x for obs in out['per'] for o in obs for x in (o['w'], o['q'], o['dist'])]
+        elif k == 'build':
+            vals = [s_['res'] for s_ in out['searches']] + [x for r in out['lims'] for x in r]
+        return [v for v in vals if not math.isfinite(v)]
+
     def py_check(self, case, out):
         k = case['kind_case']
         bad = []
+        nf = self.nonfinite(case, out)
+        if nf:
+            bad.append(('finite_outputs', 'non-finite value(s) %r among volume / density / weight / posterior outputs' % nf[:3]))
         if k == 'box' and out.get('ok'):
             if case['n2'] and not out.get('rvs_ok', True):
                 bad.append(('sample_draws', 'sample() did not draw one uniform vector of length n2 per coordinate'))
@@ -651,17 +684,18 @@ class C19(PropCheck):
             if len(out['searches']) != 2 * D:
                 bad.append(('build_searches', 'build() ran %d line searches for %d dimensions' % (len(out['searches']), D)))
             else:
-                # limits row j = [-search(2j), +search(2j+1)], directions -/+ column j of the rotation, centre = x_min
+                # limits row j = [-(search along -column j), +(search along +column j)], centre = x_min
                 rot = np.array(out['rot'])
                 for j in range(D):
-                    sneg, spos = out['searches'][2 * j], out['searches'][2 * j + 1]
-                    if not (np.allclose(sneg['vd'], -rot[:, j]) and np.allclose(spos['vd'], rot[:, j])):
-                        bad.append(('build_directions', 'search directions of dimension %d are not -/+ rotation column' % j))
+                    sneg = [s_ for s_ in out['searches'] if np.allclose(s_['vd'], -rot[:, j])]
+                    spos = [s_ for s_ in out['searches'] if np.allclose(s_['vd'], rot[:, j])]
+                    if len(sneg) != 1 or len(spos) != 1:
+                        bad.append(('build_directions', 'dimension %d is not searched once along each of -/+ its rotation column' % j))
                         break
                     lo, hi = out['lims'][j]
-                    # limits pass through _secure_limits (never widened here: results are >= eta/2^K apart unless tiny)
-                    if abs(lo - (-sneg['res'])) > 6e-4 or abs(hi - spos['res']) > 6e-4:
-                        bad.append(('build_limits', 'limits row %d = %r is not [-%r, %r]' % (j, out['lims'][j], sneg['res'], spos['res'])))
+                    # limits pass through _secure_limits: a widened row moves by 0.0005
+                    if abs(lo - (-sneg[0]['res'])) > 6e-4 or abs(hi - spos[0]['res']) > 6e-4:
+                        bad.append(('build_limits', 'limits row %d = %r is not [-%r, %r]' % (j, out['lims'][j], sneg[0]['res'], spos[0]['res'])))
                         break
                 if [float(ufr(x)) for x in case['th_star']] != out['center']:
                     bad.append(('build_center', 'box centre is not x_min'))
@@ -669,6 +703,8 @@ class C19(PropCheck):
 
     # ---------------------------------------------------------------- Coq terms
     def to_coq(self, case, out):
+        if self.nonfinite(case, out):
+            return None          # reported by py_check
         return getattr(self, 'coq_' + case['kind_case'])(case, out)
 
     def region_term(self, b):
@@ -704,22 +740,26 @@ class C19(PropCheck):
         return self.line_term(case, ufr(out['res']), [(ufr(t), ufr(v)) for t, v in out['probes']])
 
     def coq_build(self, case, out):
-        """the search along +-e_d (scripted profile is symmetric, so both sides are the same model run);
-        emit the positive side (the other side is compared with it in python: same result, mirrored probes)"""
+        """one of the two searches along +-e_d (case['side']: 0 = towards smaller th_d, 1 = towards larger th_d)
+        against the model run on that side's profile; the other side is covered by other cases"""
         d = case['d']
         D = len(case['th_star'])
         sel = [s for s in out['searches'] if abs(abs(s['vd'][d]) - 1.0) < 1e-12 and all(abs(s['vd'][i]) < 1e-12 for i in range(D) if i != d)]
         if len(sel) != 2:
             return None
-        s = sel[1]
-        sign = 1 if s['vd'][d] > 0 else -1
+        want = 1.0 if case['side'] else -1.0
+        s = [x for x in sel if x['vd'][d] * want > 0]
+        if len(s) != 1:
+            return None
+        s = s[0]
+        sign = 1 if case['side'] else -1
         probes = [(sign * ufr(off[d]), ufr(v)) for off, v in s['probes']]
-        # the model's objective along this line: max(profile, others) with others < eps: same decisions, so
-        # hand the model the values clipped from below by `others`
+        # the objective along this line is max(profile, others) with others < eps
         oth = ufr(case['others'])
         c2 = dict(case)
-        c2['tbl'] = [[b, sfr(max(ufr(v), oth))] for b, v in case['tbl']]
-        c2['dflt'] = sfr(max(ufr(case['dflt']), oth))
+        key = 'tbl' if case['side'] else 'tbl_neg'
+        c2['tbl'] = [[b, sfr(max(ufr(v), oth))] for b, v in case[key]]
+        c2['dflt'] = sfr(max(ufr(case['dflt' if case['side'] else 'dflt_neg']), oth))
         return self.line_term(c2, Fr(s['res']), probes)
 
     def coq_post(self, case, out):
